@@ -12,7 +12,9 @@ pub fn entry() -> crate::Entry {
     crate::Entry { id: "C02", run, space, replay }
 }
 
-pub const FEATURES: [&str; 11] = ["styles", "ext-links", "int-links", "comments", "merges", "defined-names", "validations", "cond-formats", "table", "protection", "sheet-removed-renamed"];
+pub const FEATURES: [&str; 13] = ["styles", "ext-links", "int-links", "comments", "merges", "defined-names", "validations", "cond-formats", "table", "protection", "sheet-removed-renamed", "chart", "image"];
+/// a 2x2 PNG
+const TINY_PNG: [u8; 75] = [137, 80, 78, 71, 13, 10, 26, 10, 0, 0, 0, 13, 73, 72, 68, 82, 0, 0, 0, 2, 0, 0, 0, 2, 8, 2, 0, 0, 0, 253, 212, 154, 115, 0, 0, 0, 18, 73, 68, 65, 84, 120, 156, 99, 248, 207, 192, 192, 0, 194, 12, 255, 129, 0, 0, 31, 238, 5, 251, 11, 217, 104, 139, 0, 0, 0, 0, 73, 69, 78, 68, 174, 66, 96, 130];
 
 /// Build the lattice workbook for a feature subset.
 pub fn build_lattice(bits: u32, macro_payload: bool) -> Spreadsheet {
@@ -69,6 +71,28 @@ pub fn build_lattice(bits: u32, macro_payload: bool) -> Spreadsheet {
         }
         if has(9) {
             add_sheet_protection(ws);
+        }
+        if has(11) {
+            // a line chart over the base cells (a drawing part, a chart part and their relationships)
+            let name = ws.get_name().to_string();
+            let q = if name.chars().all(|c| c.is_ascii_alphanumeric()) { name.clone() } else { format!("'{}'", name.replace('\'', "''")) };
+            let mut from = umya_spreadsheet::drawing::spreadsheet::MarkerType::default();
+            from.set_coordinate("J12");
+            let mut to = umya_spreadsheet::drawing::spreadsheet::MarkerType::default();
+            to.set_coordinate("O22");
+            let mut chart = Chart::default();
+            chart.new_chart(ChartType::LineChart, from, to, vec![&format!("{}!$B$1:$C$1", q), &format!("{}!$B$2:$C$2", q)]);
+            ws.add_chart(chart);
+        }
+        if has(12) {
+            // two pictures with the SAME file name content on the first sheet, one on the last (media part + drawing)
+            for (n, at) in if k == 0 { vec![("pic.png", "R2"), ("pic.png", "R9")] } else { vec![("other.png", "R2")] } {
+                let mut m = umya_spreadsheet::drawing::spreadsheet::MarkerType::default();
+                m.set_coordinate(at);
+                let mut img = Image::default();
+                img.new_image_with_dimensions(2, 2, n, TINY_PNG.to_vec(), m);
+                ws.add_image(img);
+            }
         }
     }
     if has(5) {
@@ -1080,9 +1104,9 @@ fn run(ctx: &Ctx) -> i32 {
             spaces,
             cfg: PoolCfg { chunk: 8, case_timeout: std::time::Duration::from_secs(120), ..Default::default() },
             level: "exploration",
-            rule: "every workbook of (i) the feature-subset lattice over 11 annotation/structure features x {standard, light writer} x {macro payload, none}, (ii) every escape channel x applicable special string x both writers, (iii) every corpus file loaded and re-saved by both writers, (v) every lattice workbook with at most 1 (thorough: 2) features saved and reloaded, then given one more feature on its first and last sheet, (vi) every corpus file loaded eagerly and given, on every sheet, one more object with a relationship of its own (table / comment / external link), (vii) lattice workbooks (at most 1 feature, thorough 2, and all at once) that go through cleanup / insert+remove row / move_range / remove_cell+cleanup / copy_row_styling+cleanup on every sheet right before the save, (iv) every corpus file opened lazily, its first or last sheet materialised and given a text cell with an external link while the other sheets stay unloaded (model = an eagerly loaded twin with the same edit), is written to memory and handed to the independent Python validator+decoder; oracle = no validity problem and decoded cells/formulas/hyperlinks/merges/defined names/sheet list equal the pre-save model dump. distinct_nontrivial = distinct (part list, part sizes[, channel, text]) signatures of the produced packages".into(),
+            rule: "every workbook of (i) the feature-subset lattice over 13 annotation/structure features (incl. a chart and pictures) x {standard, light writer} x {macro payload, none}, (ii) every escape channel x applicable special string x both writers, (iii) every corpus file loaded and re-saved by both writers, (v) every lattice workbook with at most 1 (thorough: 2) features saved and reloaded, then given one more feature on its first and last sheet, (vi) every corpus file loaded eagerly and given, on every sheet, one more object with a relationship of its own (table / comment / external link), (vii) lattice workbooks (at most 1 feature, thorough 2, and all at once) that go through cleanup / insert+remove row / move_range / remove_cell+cleanup / copy_row_styling+cleanup on every sheet right before the save, (iv) every corpus file opened lazily, its first or last sheet materialised and given a text cell with an external link while the other sheets stay unloaded (model = an eagerly loaded twin with the same edit), is written to memory and handed to the independent Python validator+decoder; oracle = no validity problem and decoded cells/formulas/hyperlinks/merges/defined names/sheet list equal the pre-save model dump. distinct_nontrivial = distinct (part list, part sizes[, channel, text]) signatures of the produced packages".into(),
             alphabets: json!({"features": FEATURES, "subsets": nsub, "writers": 2, "macro": 2, "channels": CHANNELS, "specials": SPECIALS.iter().map(|s| s.0).collect::<Vec<_>>(), "channel_cases": channel_cases().len(), "corpus_files": corpus_files().len()}),
-            bounds: json!({"lattice": if ctx.tier == Tier::Quick {"subsets of size <=2 and complements of size <=1 (cut of the 2^11 lattice, stated as a bound)"} else {"all 2^11 subsets"}, "corpus": if ctx.tier == Tier::Quick {"files <= 600 kB"} else {"all files"}}),
+            bounds: json!({"lattice": if ctx.tier == Tier::Quick {"subsets of size <=2 and complements of size <=1 (cut of the 2^13 lattice, stated as a bound)"} else {"all 2^13 subsets"}, "corpus": if ctx.tier == Tier::Quick {"files <= 600 kB"} else {"all files"}}),
             exhaustive: true,
             caps_hit: vec![],
             assumptions: vec!["independent reader = /verif/pyref/xlsx_ref.py (stdlib zipfile + expat); _xHHHH_ escapes are not interpreted on either side".into(), "count= attributes, part names and rId numbering are not compared (not in the statement)".into()],
